@@ -348,7 +348,8 @@ func c10InterpP(t *testing.T, c c10Case, probe func(w *TimingWheel, classes map[
 						if o.M >= c10Far {
 							classes["far-delay"] = true
 						}
-						model[o.Key] = c10Pending{val: mv, due: int64(ticks) + o.M}
+						c10TopClass(o.M, iv, c.Slots, ticks, classes)
+						model[o.Key] = c10Pending{val: mv, due: c10Due(ticks, o.M)}
 						modelRearms[o.Key] = rearm{o.Re, o.RN, o.CR}
 					case "move":
 						if pending {
@@ -357,7 +358,8 @@ func c10InterpP(t *testing.T, c c10Case, probe func(w *TimingWheel, classes map[
 							if o.M >= c10Far {
 								classes["far-delay"] = true
 							}
-							model[o.Key] = c10Pending{val: p.val, due: int64(ticks) + o.M}
+							c10TopClass(o.M, iv, c.Slots, ticks, classes)
+							model[o.Key] = c10Pending{val: p.val, due: c10Due(ticks, o.M)}
 						} else {
 							classes["move-absent"] = true
 						}
@@ -659,6 +661,32 @@ func c10InterpP(t *testing.T, c c10Case, probe func(w *TimingWheel, classes map[
 // Computed in int64, so the 32-bit build (unit lib/collection@386) draws the same delays:
 // 2^31 - 3 .. 2^31 - 1 (steps fit an int32, hand position + steps does not), 2^31 .. 2^32 - 1
 // (negative when truncated to 32 bits) and 2^32 + r and beyond (small when truncated).
+// c10MaxM: the largest delays a time.Duration can hold: floor(MaxInt64 / I) intervals minus 0..2*slots
+// (with a 1 ns interval the step count itself is within a revolution of 2^63-1, so any sum
+// "hand position + steps" a wheel forms without reducing first leaves the int64 range).
+func c10MaxM(rt *rapid.T, iv time.Duration, slots int) int64 {
+	return math.MaxInt64/int64(iv) - int64(rapid.IntRange(0, 2*slots).Draw(rt, "maxr"))
+}
+
+// c10TopClass labels delays within two revolutions of the largest step count the interval allows.
+func c10TopClass(m int64, iv time.Duration, slots, ticks int, classes map[string]bool) {
+	if m >= math.MaxInt64/int64(iv)-int64(2*slots) {
+		classes["delay-at-top-of-duration-range"] = true
+		if iv == time.Nanosecond && slots > 1 && (ticks+slots-1)%slots != 0 {
+			classes["top-delay-1ns-hand-off-slot-0"] = true
+		}
+	}
+}
+
+// c10Due: tick count at which a delay of m intervals set at tick count ticks is due; saturates
+// (a delay of ~2^63 intervals is never reached by the harness anyway).
+func c10Due(ticks int, m int64) int64 {
+	if m > math.MaxInt64-int64(ticks) {
+		return math.MaxInt64
+	}
+	return int64(ticks) + m
+}
+
 func c10FarM(rt *rapid.T) int64 {
 	e := rapid.IntRange(31, 39).Draw(rt, "fare")
 	return int64(1)<<e + int64(rapid.IntRange(-3, 40).Draw(rt, "farr"))
@@ -674,6 +702,14 @@ func c10Gen(rt *rapid.T) c10Case {
 	}
 	if rapid.IntRange(0, 39).Draw(rt, "manyslots") == 39 { // wheels as large as the ones the repository builds (300) and beyond
 		c.Slots = rapid.SampledFrom([]int{59, 60, 255, 256, 300, 1000, 1024}).Draw(rt, "bigslots")
+	}
+	// nanosecond wheels with delays at the top of the Duration range (math.MaxInt64 ns = "for ever")
+	topDelays := rapid.IntRange(0, 15).Draw(rt, "topdelays") == 0
+	if topDelays {
+		c.Iv = rapid.SampledFrom([]int{1, 1, 5, 0}).Draw(rt, "topiv") // 1 ns (mostly), 7 us, 10 ms
+		if c.Slots > 12 {
+			c.Slots = rapid.IntRange(2, 12).Draw(rt, "topslots")
+		}
 	}
 	farOK := c10Iv(c) <= c10Interval // 2^39 intervals must still fit a time.Duration
 	nkeys := rapid.IntRange(1, 3).Draw(rt, "nkeys")
@@ -733,6 +769,9 @@ func c10Gen(rt *rapid.T) c10Case {
 			if rapid.IntRange(0, 11).Draw(rt, "far") == 11 && farOK {
 				o.M = c10FarM(rt)
 			}
+			if topDelays && rapid.IntRange(0, 2).Draw(rt, "top") == 0 {
+				o.M, o.Half = c10MaxM(rt, c10Iv(c), c.Slots), false
+			}
 			if rapid.IntRange(0, 5).Draw(rt, "rearm") == 5 {
 				o.Re = rapid.IntRange(1, maxM).Draw(rt, "re")
 				o.RN = rapid.IntRange(1, 3).Draw(rt, "rn")
@@ -744,6 +783,9 @@ func c10Gen(rt *rapid.T) c10Case {
 			o.Half = rapid.Bool().Draw(rt, "half")
 			if rapid.IntRange(0, 11).Draw(rt, "far") == 11 && farOK {
 				o.M = c10FarM(rt)
+			}
+			if topDelays && rapid.IntRange(0, 2).Draw(rt, "top") == 0 {
+				o.M, o.Half = c10MaxM(rt, c10Iv(c), c.Slots), false
 			}
 		case "remove":
 			o.Key = rapid.IntRange(0, nkeys-1).Draw(rt, "key")
@@ -969,6 +1011,7 @@ func c10SlowInterp(t *testing.T, c c10Case) (v kit.Verdict) {
 	var fail string
 	overlapped := false
 	panicked := false
+	stopWhileRunning, stopBeforeBatchDone := false, false
 	res := kit.Bubble(t, func() {
 		var mu sync.Mutex
 		got := map[[2]int]int{}
@@ -999,6 +1042,7 @@ func c10SlowInterp(t *testing.T, c c10Case) (v kit.Verdict) {
 			fail = err.Error()
 			return
 		}
+		stopped := false
 		model := map[int]c10Pending{}
 		want := map[[2]int]int{}
 		due := func() {
@@ -1012,12 +1056,44 @@ func c10SlowInterp(t *testing.T, c c10Case) (v kit.Verdict) {
 		for _, o := range c.Ops {
 			switch o.Kind {
 			case "set":
-				_ = w.SetTimer(o.Key, o.Val, time.Duration(o.M)*c10Interval)
+				err := w.SetTimer(o.Key, o.Val, time.Duration(o.M)*c10Interval)
+				if stopped {
+					if err != ErrClosed {
+						fail = fmt.Sprintf("SetTimer after Stop got %v, want ErrClosed", err)
+						return
+					}
+					break
+				}
 				model[o.Key] = c10Pending{val: o.Val, due: int64(ticks) + o.M}
+			case "stop":
+				// Stop while callbacks may still be running. Every task whose tick came BEFORE this
+				// call is owed its one execution ("fires exactly once, during tick T + floor(d/I)";
+				// the statement lets Stop end the service of operations, it does not take back a
+				// tick that has happened); what is still pending never becomes due.
+				if !stopped {
+					mu.Lock()
+					nwant, ngot := 0, 0
+					for _, n := range want {
+						nwant += n
+					}
+					for _, n := range got {
+						ngot += n
+					}
+					if running > 0 {
+						stopWhileRunning = true
+					}
+					if nwant > ngot {
+						stopBeforeBatchDone = true
+					}
+					mu.Unlock()
+					w.Stop()
+					stopped = true
+					model = map[int]c10Pending{}
+				}
 			case "move":
 				_ = w.MoveTimer(o.Key, time.Duration(o.M)*c10Interval)
 				if p, ok := model[o.Key]; ok {
-					model[o.Key] = c10Pending{val: p.val, due: int64(ticks) + o.M}
+					model[o.Key] = c10Pending{val: p.val, due: c10Due(ticks, o.M)}
 				}
 			case "remove":
 				_ = w.RemoveTimer(o.Key)
@@ -1042,7 +1118,9 @@ func c10SlowInterp(t *testing.T, c c10Case) (v kit.Verdict) {
 		}
 		time.Sleep(time.Duration(len(want)+2) * (lat + c10Interval)) // let every pending callback finish
 		kit.Wait()
-		w.Stop()
+		if !stopped {
+			w.Stop()
+		}
 		mu.Lock()
 		defer mu.Unlock()
 		for k, n := range want {
@@ -1058,7 +1136,13 @@ func c10SlowInterp(t *testing.T, c c10Case) (v kit.Verdict) {
 			}
 		}
 	})
-	v.NonTrivial = overlapped || panicked
+	v.NonTrivial = overlapped || panicked || stopBeforeBatchDone
+	if stopWhileRunning {
+		v.Classes = append(v.Classes, "stop-while-callback-running")
+	}
+	if stopBeforeBatchDone {
+		v.Classes = append(v.Classes, "stop-before-due-batch-finished")
+	}
 	if overlapped {
 		v.Classes = append(v.Classes, "callbacks-overlap-later-tick")
 	}
@@ -1083,7 +1167,15 @@ func c10SlowGen(rt *rapid.T) c10Case {
 		}
 	}
 	n := rapid.IntRange(3, 30).Draw(rt, "nops")
+	stopAt := -1
+	if rapid.IntRange(0, 2).Draw(rt, "stops") == 0 { // Stop somewhere in the second half, then a few more ops
+		stopAt = rapid.IntRange(n/2, n-1).Draw(rt, "stopat")
+	}
 	for i := 0; i < n; i++ {
+		if i == stopAt {
+			c.Ops = append(c.Ops, c10Op{Kind: "stop"})
+			continue
+		}
 		switch rapid.IntRange(0, 9).Draw(rt, "kind") {
 		case 0, 1, 2, 3:
 			c.Ops = append(c.Ops, c10Op{Kind: "set", Key: rapid.IntRange(0, nkeys-1).Draw(rt, "key"), Val: rapid.IntRange(0, 9).Draw(rt, "val"), M: int64(rapid.IntRange(1, 3).Draw(rt, "m"))})
